@@ -22,6 +22,7 @@ func groupbalMain(args []string) int {
 	inPath := fs.String("in", "", "ndjson file of inputs")
 	outPath := fs.String("out", "", "ndjson file of (input, output) lines")
 	reps := fs.Int("reps", 8, "calls per RackAffinity input")
+	tracePath := fs.String("trace", "", "ndjson file for the protocol events of the leader-path runs (GroupJoinTrace.tla)")
 	par := fs.Int("par", 16, "groups formed side by side on the leader path")
 	fs.Parse(args)
 	f, err := os.Open(*inPath)
@@ -75,7 +76,8 @@ func groupbalMain(args []string) int {
 	}
 	// leader path: real ConsumerGroups against a fake cluster, several groups side by side
 	if len(leaderIns) > 0 {
-		out := make([]gbdriver.Line, len(leaderIns))
+		out := make([][]gbdriver.Line, len(leaderIns))
+		evs := make([][]map[string]interface{}, len(leaderIns))
 		errs := make([]error, len(leaderIns))
 		sem := make(chan struct{}, *par)
 		var wg sync.WaitGroup
@@ -85,7 +87,7 @@ func groupbalMain(args []string) int {
 			go func(i int) {
 				defer wg.Done()
 				defer func() { <-sem }()
-				out[i], errs[i] = gbdriver.ExecuteLeader(leaderIns[i])
+				out[i], evs[i], errs[i] = gbdriver.ExecuteLeader(leaderIns[i])
 			}(i)
 		}
 		wg.Wait()
@@ -95,12 +97,43 @@ func groupbalMain(args []string) int {
 				return 2
 			}
 			inputs++
-			calls++
-			if err := enc.Encode(out[i]); err != nil {
+			for _, l := range out[i] {
+				calls++
+				if err := enc.Encode(l); err != nil {
+					fmt.Fprintln(os.Stderr, err)
+					return 2
+				}
+				lines++
+			}
+		}
+		if *tracePath != "" {
+			tf, err := os.Create(*tracePath)
+			if err != nil {
 				fmt.Fprintln(os.Stderr, err)
 				return 2
 			}
-			lines++
+			tw := bufio.NewWriterSize(tf, 1<<20)
+			tenc := json.NewEncoder(tw)
+			for i := range evs {
+				bad := false
+				for _, l := range out[i] {
+					bad = bad || l.Err != ""
+				}
+				if bad {
+					continue
+				}
+				for _, e := range evs[i] {
+					if err := tenc.Encode(e); err != nil {
+						fmt.Fprintln(os.Stderr, err)
+						return 2
+					}
+				}
+			}
+			if err := tw.Flush(); err != nil {
+				fmt.Fprintln(os.Stderr, err)
+				return 2
+			}
+			tf.Close()
 		}
 	}
 	if err := w.Flush(); err != nil {
